@@ -61,6 +61,8 @@ INST = {
     # *InternalError panics: restarted without touching the budget, also when the budget is already used up
     "one_g": (one("MR0_1", 1, "T1", "G_t1", 1, ifaults=1), A0, T(t1=("A", True))),
     "one_h": (one("MR1_1", 2, "T0", "G_t1", 1, ifaults=2, crash="UserOnly"), A1, T()),
+    # one failure with traffic during and after the restart (three messages, no stop request)
+    "one_i": (one("MR1_1", 3, "T0", "G_t1", 1, crash="UserOnly"), A1, T()),
     # the Stopped handler itself panics (after poison, after stop, after a crash)
     "one_s": (one("MR1_1", 1, "T1", "G_t1", 2, crash="StoppedAndUser"), A1, T(t1=("A", True))),
     "pair_a": (I("Pair", "ParentPair", "RootP", "KidsPair", "MRc0p1", 1, "SendC", "T1", "T1onP", "G_t1", 1), pair(1, 0), T(t1=("P", True))),
@@ -74,7 +76,7 @@ INST = {
 ALL_QUICK = ["one_a", "one_b", "one_c", "one_d", "one_f", "one_g", "pair_a", "chain_a", "chain_b", "fan_a"]
 PLAN = {
     "quick": {
-        "C02": ["one_a", "one_c", "one_d", "one_f", "pair_a"],
+        "C02": ["one_a", "one_c", "one_d", "one_f", "one_i", "pair_a"],
         "C04": ["one_a", "one_b", "one_c", "one_d", "one_g", "one_s", "pair_a"],
         "C05": ["one_a", "one_c", "one_f", "one_g", "one_h", "one_s", "pair_a"],
         "C06": ["one_c", "one_d", "one_f", "one_g", "pair_a", "pair_b"],
@@ -83,7 +85,7 @@ PLAN = {
         "C13": ["one_a", "one_c", "one_d", "one_g", "pair_a"],
         "C12": ["one_a", "one_c", "one_d", "pair_a"],
     },
-    "thorough": {p: ["one_a", "one_b", "one_c", "one_d", "one_e", "one_f", "one_g", "one_h", "one_s", "pair_a", "pair_b", "chain_a", "chain_b", "fan_a"]
+    "thorough": {p: ["one_a", "one_b", "one_c", "one_d", "one_e", "one_f", "one_g", "one_h", "one_i", "one_s", "pair_a", "pair_b", "chain_a", "chain_b", "fan_a"]
                  for p in ("C02", "C04", "C05", "C06", "C07", "C08", "C13", "C12")},
 }
 
